@@ -36,14 +36,19 @@ LEVEL_TEXT = ('every clause of the property is a Coq theorem about the executabl
               'pass ALGORITHMS are regenerated from the source on every run: translator T15 turns every _transform of '
               'minimization/simplification/*.py (closures with nonlocal state, the consume(circuit.dfs(hooks)) idiom, the '
               'signature dict of MergeDuplicateGates, the grouping and the shared _Keep objects of MergeEquivalentGates) '
-              'into Gallina statement by statement, and C03_passes_regenerated proves each regenerated function equal to '
-              'the hand model for every circuit')
+              'into Gallina statement by statement (likewise cleanup, the reduction loop of '
+              'Transformer.linearize_reduce_transformers and the class tables of the transformers), and '
+              'C03_passes_regenerated proves each regenerated function equal to the hand model for every circuit')
 LEVEL_NOTE = ('Coq kernel + vm_compute; model of the four passes (Model/Passes.v) proved equal to the functions that translator '
               'T15 regenerates from minimization/simplification/*.py on every run (trusted: the translator, its fixed prelude '
               '- sorted as insertion sort by String.leb, dicts as association lists, a heap for the _Keep dataclass - and the '
               'reading of consume(circuit.dfs(hooks)) as a fold of the hooks over the event log of the traversal model, '
-              'which T10 regenerates and C20 proves); hand-written model of transformer.py / cleanup.py (pipeline '
-              'linearisation: correspondence only), of the '
+              'which T10 regenerates and C20 proves); pipeline machinery: cleanup, the reduction loop of '
+              'linearize_reduce_transformers, the __idempotent__ flags and the pre / post transformer lists of the '
+              'constructors are regenerated too (Generated/PipelineGen.v) and the model is proved consistent with them, '
+              'while linearize_transformers / as_distinct / apply_transformers / transform / the pipe operator / the '
+              '__eq__ methods of transformer.py remain hand-modelled (dynamic dispatch over classes, recursive '
+              'generators, reflected __eq__: correspondence only); hand-written model of the '
               'traversals (C20 theorems are used for the emission order) and of evaluation (C01 soundness and completeness are used for '
               'MergeEquivalentGates and get_truth_table); correspondence harness. Hypotheses: WF c (the C02 invariant) and '
               'arity_ok c (every non-INPUT gate has an operand count its operator accepts; without it evaluation raises and '
